@@ -347,7 +347,11 @@ class BodyAn:
                         kill |= moved_locals_operand(op)
                     mu &= ~kill; ma &= ~kill
                     if s.place.is_local():
-                        mu |= 1 << s.place.local; ma |= 1 << s.place.local
+                        if s.rv.kind == 'agg' and s.rv.j.get('ak') == 'adt' and s.rv.j.get('variant') == 'None' and s.rv.j.get('adt') == 'std::option::Option':
+                            # an empty Option holds nothing (same refinement as the None arm of a switch)
+                            mu &= ~(1 << s.place.local); ma &= ~(1 << s.place.local)
+                        else:
+                            mu |= 1 << s.place.local; ma |= 1 << s.place.local
                 elif s.kind == 'dead':
                     mu &= ~(1 << s.local); ma &= ~(1 << s.local)
             t = blk.term
